@@ -67,60 +67,16 @@ theorem correct_eq_wrap (ty : Ty) (x : Int) : correct x (tyOf ty) = wrap ty x :=
 
 /-! ### `irem` -/
 
-/-- truncating remainder through absolute values -/
-theorem tmod_eq_abs (a b : Int) :
-    Int.tmod a b = if a < 0 then -(pyAbs a % pyAbs b) else pyAbs a % pyAbs b := by
-  unfold pyAbs
-  by_cases ha : a < 0 <;> by_cases hb' : b < 0 <;> simp only [ha, hb', if_true, if_false, Int.emod_neg]
-  · have h := Int.neg_tmod (-a) b
-    rw [Int.neg_neg] at h; rw [h, Int.tmod_eq_emod_of_nonneg (by omega)]
-  · have h := Int.neg_tmod (-a) b
-    rw [Int.neg_neg] at h; rw [h, Int.tmod_eq_emod_of_nonneg (by omega)]
-  · rw [Int.tmod_eq_emod_of_nonneg (by omega)]
-  · rw [Int.tmod_eq_emod_of_nonneg (by omega)]
-
 /-- `irem` is the remainder of the division that truncates toward zero; it raises exactly for 0 -/
 theorem irem_eq_tmod (a b : Int) (hb : b ≠ 0) : irem a b = .ok (Int.tmod a b) := by
   have hab : pyAbs b ≠ 0 := by unfold pyAbs; split <;> omega
   have hnn : 0 ≤ pyAbs b := by unfold pyAbs; split <;> omega
   rw [tmod_eq_abs]
   simp only [irem, pyMod, hab, if_false, Int.fmod_eq_emod_of_nonneg _ hnn]
+  simp only [pyAbs]
 
 theorem irem_zero (a : Int) : irem a 0 = .error .ZeroDivisionError := by
   simp [irem, pyMod, pyAbs]
-
-/-- the truncating remainder of two values of a type is a value of the type -/
-theorem tmod_inRange (ty : Ty) (a b : Int) (ha : InRange ty a) (hb : InRange ty b) (h0 : b ≠ 0) :
-    InRange ty (Int.tmod a b) := by
-  rw [tmod_eq_abs]
-  have hpos : 0 < pyAbs b := by unfold pyAbs; split <;> omega
-  have h1 := Int.emod_nonneg (pyAbs a) (Int.ne_of_gt hpos)
-  have h2 := Int.emod_lt_of_pos (pyAbs a) hpos
-  generalize pyAbs a % pyAbs b = r at h1 h2 ⊢
-  unfold pyAbs at h2
-  cases ty <;> simp [InRange, Ty.minVal, Ty.maxVal, Ty.signed, Ty.bits] at ha hb ⊢ <;>
-    split <;> split at h2 <;> omega
-
-/-! ### shifts -/
-
-theorem ediv_pow_inRange (ty : Ty) (a : Int) (c : Nat) (ha : InRange ty a) : InRange ty (a / 2 ^ c) := by
-  have hp : (0:Int) < 2 ^ c := Int.pow_pos (by omega)
-  have hlo : min a 0 ≤ a / 2 ^ c := by
-    by_cases h : 0 ≤ a
-    · have := Int.ediv_nonneg h (Int.le_of_lt hp); omega
-    · have h1 : a * 2 ^ c ≤ a * 1 := Int.mul_le_mul_of_nonpos_left (by omega) (by omega)
-      have := (Int.le_ediv_iff_mul_le hp).2 (by omega : a * 2 ^ c ≤ a); omega
-  have hhi : a / 2 ^ c ≤ max a 0 := by
-    by_cases h : 0 ≤ a
-    · have := Int.ediv_le_self (2 ^ c) h; omega
-    · have := Int.ediv_neg_of_neg_of_pos (by omega : a < 0) hp; omega
-  cases ty <;> simp [InRange, Ty.minVal, Ty.maxVal, Ty.signed, Ty.bits] at ha ⊢ <;> omega
-
-theorem shiftRight_logical (a : Int) (c : Nat) (ha : 0 ≤ a) : Int.ofNat (a.toNat >>> c) = a / 2 ^ c := by
-  rw [Nat.shiftRight_eq_div_pow]
-  have : a = (a.toNat : Int) := (Int.toNat_of_nonneg ha).symm
-  conv => rhs; rw [this]
-  simp
 
 /-! ### one operation -/
 
